@@ -63,6 +63,13 @@ META = {'C01': {'text': 'Model-based stateful property testing: random histories
          'note': 'Trusts the reference model. Two creating operations for one key in one transaction are known finding f17 and excluded by '
                  'construction (counted).',
          'technique': 'model-based stateful property testing (rapid) with reference-map oracle'},
+ 'C14': {'text': 'Fault enumeration: for each generated collection every write-call index and (for small snapshots) every byte budget at which the '
+                 'destination starts failing is injected, fail-once and fail-forever, repeated on one collection to expose leaks, with error '
+                 'reporting, continued usability, later healthy snapshots and fd/temp-file accounting checked after each call.',
+         'design_ref': 'DESIGN.md §6 C14',
+         'note': "Trusts the injecting writer's own record of whether it failed, /proc/self/fd and the private TMPDIR listing; the reference model "
+                 'for the post-failure restore comparison.',
+         'technique': 'fault injection with enumerated failure positions + model-based oracle (rapid-generated collections)'},
  'C15': {'text': 'Model-based stateful property testing of the emitted stream against the blocks the reference model says changed, plus stream-wide '
                  'ID invariants, through both a recording logger and a real commit.Channel; concurrent writers are explored under a cooperative '
                  'scheduler that owns the interleaving at commit-protocol yield points. Exploration.',
